@@ -341,6 +341,18 @@ func c16One(c *ctx, in c16Input, d *Driver, impl *[]string) {
 		c16BaiPair(c, in, d, impl)
 	case "csipair":
 		c16CsiPair(c, in, d, impl)
+	case "csianyquery":
+		q := c16Query{in.B2, in.E2, in.MinShift, in.Depth}
+		c16JudgeCsiAny(c.res, q, c16Probe([]c16Query{q})[q.key()])
+	case "baianyquery":
+		bin := bam.VerifBinFor(int(in.B1), int(in.E1))
+		found := false
+		for _, x := range bam.VerifOverlappingBinsFor(int(in.B2), int(in.E2)) {
+			found = found || x == bin
+		}
+		if !found {
+			c.res.fail("c16.bai.anyquery.binnotlisted", fmt.Sprintf("BinFor(%d,%d)=%d not in OverlappingBinsFor(%d,%d)", in.B1, in.E1, bin, in.B2, in.E2), in)
+		}
 	}
 }
 
@@ -373,7 +385,7 @@ func c16Pos(rnd *Rand, limit int64) int64 {
 func checkC16(c *ctx) {
 	r := c.res
 	r.Rule = "records: CIGARs of 0..8 ops over the nine standard ops and B with lengths from {0,1,2,small,2^14±1,2^28-1} at edge-biased positions (tile and bin-level edges ±2, ends of the 2^29 range), mapped/unmapped/mate-unmapped, including CIGARs that consume no reference placed exactly on tile and bin-level boundaries and unplaced reads (pos -1); a separate stream with op types 10..15 (compared with the model only). " +
-		"BAI: edge-biased overlapping interval pairs; CSI: every overlapping interval pair of small geometries (exhaustive) and edge-biased pairs of large ones, including geometries whose range exceeds 2^32 up to minShift+3·depth = 62. Non-trivial: CIGAR non-empty / intervals longer than 1; distinct = distinct case text."
+		"Queries of any extent (empty, reversed, negative begin, end up to MaxInt64; CSI calls in a child process with a deadline and a memory limit, BAI in-process): bin lists against the model with Go loop semantics and against the specification of the query cut to the indexable range. BAI: edge-biased overlapping interval pairs; CSI: every overlapping interval pair of small geometries (exhaustive) and edge-biased pairs of large ones, including geometries whose range exceeds 2^32 up to minShift+3·depth = 62. Non-trivial: CIGAR non-empty / intervals longer than 1; distinct = distinct case text."
 	if c.replay != "" {
 		var in c16Input
 		if err := loadReplay(c.replay, &in); err != nil {
@@ -596,13 +608,14 @@ func checkC16(c *ctx) {
 		d.add("c16.reg2bin %d %d 14 5", p[0], p[1])
 		impl = append(impl, fmt.Sprint(csi.VerifReg2bin(p[0], p[1], 14, 5)))
 		if p[0] >= 0 && p[1] > 0 {
-			// csi.reg2bins(-1, 0, ..) never terminates (uint32 loop bound 0xffffffff): outside this
-			// property's quantifier (intervals within the indexable range), so it is not called here.
+			// the other ones are called in a child process (c16AnyQueries): csi.reg2bins(-1, 0, ..) did not
+			// return before repair C04-6
 			d.add("c16.reg2bins %d %d 14 5", p[0], p[1])
 			impl = append(impl, c16ShowBins(csi.VerifReg2bins(p[0], p[1], 14, 5)))
 		}
 		r.hist("degenerate")
 	}
+	c16AnyQueries(c, d, &impl)
 	for _, i := range []int{-2, -1, 0, 1<<29 - 2, 1<<29 - 1, 1 << 29} {
 		d.add("c16.valid %d", i)
 		impl = append(impl, fmt.Sprint(bam.VerifIsValidIndexPos(i)))
